@@ -19,6 +19,7 @@ import (
 	"context"
 	"encoding/hex"
 	"fmt"
+	"io"
 	"net"
 
 	"strconv"
@@ -179,19 +180,26 @@ END\r\n
 			}
 			count := v
 
-			buff := make([]byte, 80)
+			if count < 0 {
+				return fmt.Errorf("Byte count is negative: %s", string(command))
+			}
 
-			n, err := b.Read(buff)
-			if err != nil {
+			// capture the first bytes of the data block, skip the rest of it and its
+			// terminating \r\n; nothing of the next command may be consumed
+			n := count
+			if n > 80 {
+				n = 80
+			}
+
+			buff := make([]byte, n)
+
+			if _, err := io.ReadFull(b, buff); err != nil {
 				return err
 			}
 
-			buff = buff[:n]
-
-			// discard rest of payload
-			count -= n
-
-			b.Discard(count)
+			if _, err := b.Discard(count - n + 2); err != nil {
+				return err
+			}
 
 			s.ch.Send(event.New(
 				EventOptions,
